@@ -95,6 +95,9 @@ def embedder_op(cpu, api):
     elif api == 'swap_registers':
         import copy
         cpu.registers = copy.deepcopy(cpu.registers)
+    elif api == 'swap_cpsr':
+        import copy
+        cpu.registers.cpsr = copy.copy(cpu.registers.cpsr)        # a per-task / checkpointed status register object installed by the embedder
     elif api == 'take_data_abort':
         from armulator.armv6.arm_exceptions import DataAbortException
         from armulator.armv6.enums import DAbort
